@@ -1,4 +1,5 @@
 import Qentem.Proofs.TmplParseSegs
+import Qentem.Proofs.ExprEval
 /-!
 # C02 stage 2 — templates made of text, `{var:…}` and `{raw:…}`: what `render` prints
 
@@ -10,7 +11,7 @@ text gives the documented expansion.
 set_option linter.unusedSectionVars false
 set_option linter.unusedVariables false
 namespace Qentem.Tmpl
-open Qentem.Expr (Fault rd ScanCfg VarRef)
+open Qentem.Expr (Fault rd ScanCfg VarRef Item Num Val Env RealLike)
 open Qentem.Generated.Tmpl
 
 variable {R : Type}
@@ -298,21 +299,10 @@ theorem getValue_top (cx : RCtx R) (hg : cx.guardIndexRead = true) (st : RState)
       show ¬ name.length = 0 by omega, hsl, hp]
 
 
-/-- what the document says one segment prints (top level: no enclosing loop) -/
-def expSeg (cx : RCtx R) : Seg → List Nat
-  | .text s => s
-  | .var p =>
-    match (resolve cx.root [] p).1.bind (copyValue cx true) with
-    | some t => t
-    | none => Qentem.Escape.escapeCfg cx.autoEscape (printSeg (.var p))
-  | .raw p =>
-    match (resolve cx.root [] p).1.bind (copyValue cx false) with
-    | some t => t
-    | none => printSeg (.raw p)
-
-def expSegs (cx : RCtx R) : List Seg → List Nat
-  | [] => []
-  | s :: r => expSeg cx s ++ expSegs cx r
+/-- the reference interpreter's parameters taken from the renderer's -/
+def specOf (cx : RCtx R) : SpecCtx R :=
+  { root := cx.root, readNum := cx.readNum, realOfBits := cx.realOfBits, realBits := cx.realBits,
+    fmtReal := cx.fmtReal, autoEscape := cx.autoEscape }
 
 theorem getValue_path (cx : RCtx R) (hg : cx.guardIndexRead = true) (st : RState)
     (A post p : List Nat) (hc : cx.content = A ++ (p ++ post)) (hp : PathOk p) :
@@ -324,6 +314,35 @@ theorem getValue_path (cx : RCtx R) (hg : cx.guardIndexRead = true) (st : RState
 theorem slice_from (B txt rest : List Nat) :
     slice (B ++ (txt ++ rest)) B.length (B ++ txt).length = .ok txt := by
   rw [List.length_append]; exact slice_mid B txt rest
+
+def Seg.pathOk : Seg → Prop
+  | .text _ => True
+  | .var p => PathOk p
+  | .raw p => PathOk p
+  | .math _ => True
+
+section
+variable [RealLike R]
+
+/-- what the document says one segment prints (top level: no enclosing loop) -/
+def expSeg (cx : RCtx R) : Seg → List Nat
+  | .text s => s
+  | .var p =>
+    match (resolve cx.root [] p).1.bind (copyValue cx true) with
+    | some t => t
+    | none => Qentem.Escape.escapeCfg cx.autoEscape (printSeg (.var p))
+  | .raw p =>
+    match (resolve cx.root [] p).1.bind (copyValue cx false) with
+    | some t => t
+    | none => printSeg (.raw p)
+  | .math e =>
+    match (evalText (specOf cx) [] e).bind (numText (specOf cx)) with
+    | some t => t
+    | none => printSeg (.math e)
+
+def expSegs (cx : RCtx R) : List Seg → List Nat
+  | [] => []
+  | s :: r => expSeg cx s ++ expSegs cx r
 
 theorem renderVariable_seg (cx : RCtx R) (hg : cx.guardIndexRead = true) (st : RState)
     (B txt p post : List Nat)
@@ -379,24 +398,137 @@ theorem renderRawVariable_seg (cx : RCtx R) (hg : cx.guardIndexRead = true) (st 
     simp only [hsrc]
     simp; omega
 
+/-! ### `{math:e}` -/
 
-def Seg.pathOk : Seg → Prop
-  | .text _ => True
-  | .var p => PathOk p
-  | .raw p => PathOk p
+theorem vars_reloc {k n : Nat} : ∀ m,
+    (∀ (a b : List (Item R)), Qentem.Expr.sizeItems a ≤ m → Qentem.Expr.RelItems k n a b → itemsVars b = []) ∧
+    (∀ (x y : Qentem.Expr.Operand R), x.size ≤ m → Qentem.Expr.RelOperand k n x y → operandVars y = []) := by
+  intro m
+  induction m with
+  | zero =>
+    refine ⟨?_, ?_⟩
+    · intro a b hs hab
+      cases hab with
+      | nil => rfl
+      | cons x y o a b _ _ => simp [Qentem.Expr.sizeItems] at hs
+    · intro x y hs hxy
+      cases hxy with
+      | num _ => rfl
+      | text _ _ _ => rfl
+      | sub a b _ => simp [Qentem.Expr.Operand.size] at hs
+  | succ m ih =>
+    refine ⟨?_, ?_⟩
+    · intro a b hs hab
+      cases hab with
+      | nil => rfl
+      | cons x y o a b hxy hab =>
+        simp only [Qentem.Expr.sizeItems] at hs
+        simp only [itemsVars]
+        rw [ih.2 x y (by omega) hxy, ih.1 a b (by omega) hab]; rfl
+    · intro x y hs hxy
+      cases hxy with
+      | num _ => rfl
+      | text _ _ _ => rfl
+      | sub a b hab =>
+        simp only [Qentem.Expr.Operand.size] at hs
+        simp only [operandVars]
+        exact ih.1 a b (by omega) hab
 
-section
-variable [Qentem.Expr.RealLike R]
+/-- the text of a `{math:e}` tag inside the content, as a relocation of `e}` -/
+theorem reloc_math (c pre e post : List Nat)
+    (hc : c = pre ++ (([123, 109, 97, 116, 104, 58] ++ e ++ [125]) ++ post)) :
+    Qentem.Expr.Reloc (e ++ [125]) c (pre.length + 6) := by
+  have hc' : c = ((pre ++ [123, 109, 97, 116, 104]) ++ [58]) ++ (e ++ [125]) ++ post := by
+    rw [hc]; simp [List.append_assoc]
+  have hlen : ((pre ++ [123, 109, 97, 116, 104]) ++ [58]).length = pre.length + 6 := by simp
+  have hbefore := isExpression_after_colon (pre ++ [123, 109, 97, 116, 104]) ((e ++ [125]) ++ post)
+  rw [← List.append_assoc] at hbefore
+  have hrel := Qentem.Expr.Reloc.of_append ((pre ++ [123, 109, 97, 116, 104]) ++ [58]) (e ++ [125]) post hbefore
+  rw [← hc', hlen] at hrel
+  exact hrel
 
-theorem render_segs_aux (cx : RCtx R) (hg : cx.guardIndexRead = true) :
+/-- the environment in which the reference interpreter evaluates the expression text `e` -/
+def specEnv (cx : RCtx R) (e : List Nat) : Env R :=
+  { content := e ++ [125],
+    lookup := fun v => ((resolve cx.root [] (((e ++ [125]).drop v.off).take v.len)).1).map (docVarVal (specOf cx)),
+    readNum := cx.readNum }
+
+theorem evalText_eq (cx : RCtx R) (e : List Nat) (items0 : List (Item R))
+    (h0 : Qentem.Expr.parseTop ({ readNum := cx.readNum } : ScanCfg R) (e ++ [125]) 0 e.length = .ok items0) :
+    evalText (specOf cx) [] e =
+      if items0.isEmpty then none else Qentem.Expr.evaluateTop (specEnv cx e) true items0 := by
+  simp only [evalText, specOf, h0]
+  cases items0 with
+  | nil => rfl
+  | cons x xs =>
+    have hwf := Qentem.Expr.parseTop_wf ({ readNum := cx.readNum } : ScanCfg R) (e ++ [125]) 0 e.length (by simp)
+    rw [h0] at hwf
+    rcases hwf with h | h
+    · cases h
+    · simp only [List.isEmpty_cons, Bool.false_eq_true, if_false]
+      exact (Qentem.Expr.evaluateTop_eq_tree _ _ h).symm
+
+theorem renderMath_seg (cx : RCtx R) (cfg : ScanCfg R) (hrn : cfg.readNum = cx.readNum) (st : RState)
+    (B txt e post : List Nat)
+    (hc : cx.content = B ++ (txt ++ (([123, 109, 97, 116, 104, 58] ++ e ++ [125]) ++ post)))
+    (hp : plainL e) (hsc : Seg.scanOk cfg.readNum (.math e)) :
+    renderMath cx st (itemsAt cfg cx.content ((B ++ txt).length + 6) ((B ++ txt).length + 6 + e.length))
+        (B ++ txt).length ((B ++ txt).length + 6 + e.length + 1) B.length =
+      .ok (emit (emit st txt) (expSeg cx (.math e)), (B ++ txt).length + 6 + e.length + 1) := by
+  obtain ⟨items0, hitems0⟩ := hsc
+  have hc2 : cx.content = (B ++ txt) ++ (([123, 109, 97, 116, 104, 58] ++ e ++ [125]) ++ post) := by
+    rw [hc]; simp [List.append_assoc]
+  obtain ⟨items', hex, hrel⟩ := exprs_math cfg cx.content (B ++ txt) e post hc2 hp items0 hitems0
+  have hreloc := reloc_math cx.content (B ++ txt) e post hc2
+  have hsl : slice cx.content B.length (B ++ txt).length = .ok txt := by rw [hc]; exact slice_from B txt _
+  have hsrc : slice cx.content (B ++ txt).length ((B ++ txt).length + 6 + e.length + 1) =
+      .ok (printSeg (.math e)) := by
+    have := slice_mid (B ++ txt) ([123, 109, 97, 116, 104, 58] ++ e ++ [125]) post
+    rw [hc2, show (B ++ txt).length + 6 + e.length + 1 =
+      (B ++ txt).length + ([123, 109, 97, 116, 104, 58] ++ e ++ [125]).length by simp; omega]
+    exact this
+  have hitems : itemsAt cfg cx.content ((B ++ txt).length + 6) ((B ++ txt).length + 6 + e.length) = items' := by
+    simp only [itemsAt, hex]
+  rw [hitems]
+  rw [hrn] at hitems0
+  have hspec := evalText_eq cx e items0 hitems0
+  have hemp := hrel.isEmpty
+  cases hi : items0.isEmpty with
+  | true =>
+    rw [hi] at hemp
+    simp only [hi, if_true] at hspec
+    simp only [renderMath, hsl, evalExprs, ← hemp, if_true, bind, Except.bind, hsrc, expSeg, hspec,
+      Option.bind]
+  | false =>
+    rw [hi] at hemp
+    simp only [hi, Bool.false_eq_true, if_false] at hspec
+    have hvars : itemsVars items' = [] := (vars_reloc _).1 _ _ (Nat.le_refl _) hrel
+    have hre : ∀ lk, Qentem.Expr.RelEnv (specEnv cx e)
+        ({ content := cx.content, lookup := lk, readNum := cx.readNum } : Env R) ((B ++ txt).length + 6) :=
+      fun lk => ⟨rfl, hreloc.slice⟩
+    have hlen : (specEnv cx e).content.length = e.length + 1 := by simp [specEnv]
+    have hev := fun lk => Qentem.Expr.evaluateTop_reloc (hre lk) true items0 items' (by rw [hlen]; exact hrel)
+    simp only [renderMath, hsl, evalExprs, ← hemp, Bool.false_eq_true, if_false, hvars, resolveVars, bind,
+      Except.bind, expSeg, hspec, (hev _).1]
+    cases hv : Qentem.Expr.evaluateTop (specEnv cx e) true items0 with
+    | none => simp only [hsrc, Option.bind]
+    | some v =>
+      obtain ⟨z, hz⟩ := (hev (fun _ => none)).2 v hv
+      subst hz
+      cases z <;> simp [Option.bind, numText, specOf]
+
+
+theorem render_segs_aux (cx : RCtx R) (cfg : ScanCfg R) (hg : cx.guardIndexRead = true)
+    (hrn : cfg.readNum = cx.readNum) :
     ∀ (segs : List Seg) (B txt : List Nat) (st : RState) (fuel : Nat),
-      cx.content = B ++ (txt ++ printSegs segs) → (∀ s ∈ segs, s.pathOk) → nTags segs + 2 ≤ fuel →
-      render cx fuel (tagsOf (B ++ txt).length segs) B.length cx.content.length st =
+      cx.content = B ++ (txt ++ printSegs segs) → (∀ s ∈ segs, s.pathOk) → (∀ s ∈ segs, s.ok) →
+      (∀ s ∈ segs, s.scanOk cfg.readNum) → nTags segs + 2 ≤ fuel →
+      render cx fuel (tagsOf cfg cx.content (B ++ txt).length segs) B.length cx.content.length st =
         .ok (emit st (txt ++ expSegs cx segs)) := by
   intro segs
   induction segs with
   | nil =>
-    intro B txt st fuel hc _ hf
+    intro B txt st fuel hc _ _ _ hf
     cases fuel with
     | zero => omega
     | succ f =>
@@ -406,12 +538,14 @@ theorem render_segs_aux (cx : RCtx R) (hg : cx.guardIndexRead = true) :
         simpa [printSegs] using this
       simp [render, tagsOf, this, bind, Except.bind, expSegs]
   | cons sg rest ih =>
-    intro B txt st fuel hc hok hf
+    intro B txt st fuel hc hok hpl hsc hf
     have hokr : ∀ s ∈ rest, s.pathOk := fun s hs => hok s (List.mem_cons_of_mem _ hs)
+    have hplr : ∀ s ∈ rest, s.ok := fun s hs => hpl s (List.mem_cons_of_mem _ hs)
+    have hscr : ∀ s ∈ rest, s.scanOk cfg.readNum := fun s hs => hsc s (List.mem_cons_of_mem _ hs)
     have hsg := hok sg (List.mem_cons_self ..)
     cases sg with
     | text s =>
-      have := ih B (txt ++ s) st fuel (by rw [hc]; simp [printSegs, printSeg]) hokr
+      have := ih B (txt ++ s) st fuel (by rw [hc]; simp [printSegs, printSeg]) hokr hplr hscr
         (by simpa [nTags] using hf)
       simp only [tagsOf, expSegs, expSeg]
       rw [show (B ++ txt).length + s.length = (B ++ (txt ++ s)).length by simp [Nat.add_assoc], this]
@@ -427,7 +561,7 @@ theorem render_segs_aux (cx : RCtx R) (hg : cx.guardIndexRead = true) :
             (by rw [hc]; simp [printSegs, printSeg]) hsg
           simp only [tagsOf, render, renderTag, hv, bind, Except.bind]
           have := ih (B ++ txt ++ printSeg (.var p)) [] (emit (emit st txt) (expSeg cx (.var p))) (g + 1)
-            (by rw [hc]; simp [printSegs, printSeg]) hokr (by simp only [nTags] at hf; omega)
+            (by rw [hc]; simp [printSegs, printSeg]) hokr hplr hscr (by simp only [nTags] at hf; omega)
           have hl : (B ++ txt ++ printSeg (.var p)).length = (B ++ txt).length + 5 + p.length + 1 := by
             simp [printSeg]; omega
           simp only [List.append_nil, hl] at this
@@ -444,32 +578,57 @@ theorem render_segs_aux (cx : RCtx R) (hg : cx.guardIndexRead = true) :
             (by rw [hc]; simp [printSegs, printSeg]) hsg
           simp only [tagsOf, render, renderTag, hv, bind, Except.bind]
           have := ih (B ++ txt ++ printSeg (.raw p)) [] (emit (emit st txt) (expSeg cx (.raw p))) (g + 1)
-            (by rw [hc]; simp [printSegs, printSeg]) hokr (by simp only [nTags] at hf; omega)
+            (by rw [hc]; simp [printSegs, printSeg]) hokr hplr hscr (by simp only [nTags] at hf; omega)
           have hl : (B ++ txt ++ printSeg (.raw p)).length = (B ++ txt).length + 5 + p.length + 1 := by
+            simp [printSeg]; omega
+          simp only [List.append_nil, hl] at this
+          rw [this]
+          simp [emit, expSegs, List.append_assoc]
+    | math e =>
+      cases fuel with
+      | zero => omega
+      | succ f =>
+        cases f with
+        | zero => simp [nTags] at hf
+        | succ g =>
+          have hv := renderMath_seg cx cfg hrn st B txt e (printSegs rest)
+            (by rw [hc]; simp [printSegs, printSeg]) (hpl _ (List.mem_cons_self ..)) (hsc _ (List.mem_cons_self ..))
+          simp only [tagsOf, render, renderTag, hv, bind, Except.bind]
+          have := ih (B ++ txt ++ printSeg (.math e)) [] (emit (emit st txt) (expSeg cx (.math e))) (g + 1)
+            (by rw [hc]; simp [printSegs, printSeg]) hokr hplr hscr (by simp only [nTags] at hf; omega)
+          have hl : (B ++ txt ++ printSeg (.math e)).length = (B ++ txt).length + 6 + e.length + 1 := by
             simp [printSeg]; omega
           simp only [List.append_nil, hl] at this
           rw [this]
           simp [emit, expSegs, List.append_assoc]
 
 /-- rendering the implied tags over the printed text prints the documented expansion -/
-theorem render_segs (cx : RCtx R) (hg : cx.guardIndexRead = true) (segs : List Seg)
-    (hc : cx.content = printSegs segs) (hok : ∀ s ∈ segs, s.pathOk) (fuel : Nat)
-    (hf : nTags segs + 2 ≤ fuel) :
-    renderTop cx (tagsOf 0 segs) fuel = .ok (expSegs cx segs) := by
-  have := render_segs_aux cx hg segs [] [] {} fuel (by simpa using hc) hok hf
+theorem render_segs (cx : RCtx R) (cfg : ScanCfg R) (hg : cx.guardIndexRead = true)
+    (hrn : cfg.readNum = cx.readNum) (segs : List Seg)
+    (hc : cx.content = printSegs segs) (hok : ∀ s ∈ segs, s.pathOk) (hpl : ∀ s ∈ segs, s.ok)
+    (hsc : ∀ s ∈ segs, s.scanOk cfg.readNum) (fuel : Nat) (hf : nTags segs + 2 ≤ fuel) :
+    renderTop cx (tagsOf cfg cx.content 0 segs) fuel = .ok (expSegs cx segs) := by
+  have := render_segs_aux cx cfg hg hrn segs [] [] {} fuel (by simpa using hc) hok hpl hsc hf
   simp only [List.append_nil, List.length_nil] at this
   simp [renderTop, this, bind, Except.bind, emit]
-
 
 /-- the reference interpreter and the renderer are given the same value and parameters -/
 structure SameCtx (cx : RCtx R) (sx : SpecCtx R) : Prop where
   root : sx.root = cx.root
   fmt : sx.fmtReal = cx.fmtReal
   esc : sx.autoEscape = cx.autoEscape
+  readNum : sx.readNum = cx.readNum
+  realOfBits : sx.realOfBits = cx.realOfBits
+  realBits : sx.realBits = cx.realBits
 
-theorem printable_eq (cx : RCtx R) (sx : SpecCtx R) (h : SameCtx cx sx) (esc : Bool) (d : Doc) :
-    printable sx esc d = copyValue cx esc d := by
-  cases d <;> simp [printable, copyValue, escapeS, h.fmt, h.esc] <;> rfl
+theorem SameCtx.eq {cx : RCtx R} {sx : SpecCtx R} (h : SameCtx cx sx) : sx = specOf cx := by
+  cases sx
+  simp only [specOf, SpecCtx.mk.injEq]
+  exact ⟨h.root, h.readNum, h.realOfBits, h.realBits, h.fmt, h.esc⟩
+
+theorem printable_eq (cx : RCtx R) (esc : Bool) (d : Doc) :
+    printable (specOf cx) esc d = copyValue cx esc d := by
+  cases d <;> simp [printable, copyValue, escapeS, specOf] <;> rfl
 
 theorem resolve_nil_snd (root : Doc) (p : List Nat) : (resolve root [] p).2 = none := by
   simp [resolve]
@@ -477,6 +636,7 @@ theorem resolve_nil_snd (root : Doc) (p : List Nat) : (resolve root [] p).2 = no
 theorem expandList_segs (cx : RCtx R) (sx : SpecCtx R) (h : SameCtx cx sx) :
     ∀ (segs : List Seg) (fuel : Nat), segs.length + 1 ≤ fuel →
       expandList sx fuel [] (segsTpl segs) = expSegs cx segs := by
+  rw [h.eq]
   intro segs
   induction segs with
   | nil => intro fuel _; cases fuel <;> simp [expandList, segsTpl, expSegs]
@@ -495,18 +655,23 @@ theorem expandList_segs (cx : RCtx R) (sx : SpecCtx R) (h : SameCtx cx sx) :
         | text s => simp [Seg.toTpl, expandTpl, expSeg]
         | var p =>
           have hb := resolve_nil_snd cx.root p
-          simp only [Seg.toTpl, expandTpl, expSeg, h.root]
-          rw [show printable sx true = copyValue cx true from funext (printable_eq cx sx h true)]
+          simp only [Seg.toTpl, expandTpl, expSeg, show (specOf cx).root = cx.root from rfl]
+          rw [show printable (specOf cx) true = copyValue cx true from funext (printable_eq cx true)]
           cases hv : (resolve cx.root [] p).1.bind (copyValue cx true) with
           | some t => simp
           | none =>
-            simp only [hb, escapeS, h.esc]
+            simp only [hb, escapeS, show (specOf cx).autoEscape = cx.autoEscape from rfl]
             simp [printTpl, printSeg, str]
         | raw p =>
-          simp only [Seg.toTpl, expandTpl, expSeg, h.root]
-          rw [show printable sx false = copyValue cx false from funext (printable_eq cx sx h false)]
+          simp only [Seg.toTpl, expandTpl, expSeg, show (specOf cx).root = cx.root from rfl]
+          rw [show printable (specOf cx) false = copyValue cx false from funext (printable_eq cx false)]
           cases hv : (resolve cx.root [] p).1.bind (copyValue cx false) with
           | some t => simp
+          | none => simp [printTpl, printSeg, str]
+        | math e =>
+          simp only [Seg.toTpl, expandTpl, expSeg]
+          cases hv : (evalText (specOf cx) [] e).bind (numText (specOf cx)) with
+          | some t => rfl
           | none => simp [printTpl, printSeg, str]
 
 end
